@@ -484,6 +484,198 @@ func (c *Ctx) sliceToArrayRule(rule string, fns []*ssa.Function) int {
 	return n
 }
 
+// constBoundRule (T26): x[:k], x[k:], x[a:b] and x[k] with constant bounds on a slice that is the result of a call (a
+// message getter, a decoder's output) or loaded from a field need len(x) ≥ the largest constant for that very slice —
+// by a dominating condition, by construction, or established by every caller. (Constant offsets into a []byte
+// *parameter* are T4's, which reads the guards of the whole function.) Returns the number of accesses examined.
+func (c *Ctx) constBoundRule(rule string, fns []*ssa.Function) int {
+	n := 0
+	perFn := map[*ssa.Function]int{}
+	fromCallOrField := func(v ssa.Value) bool {
+		switch x := v.(type) {
+		case *ssa.Call:
+			_, isBuiltin := x.Call.Value.(*ssa.Builtin)
+			return !isBuiltin
+		case *ssa.Extract:
+			return true
+		case *ssa.UnOp:
+			if x.Op == token.MUL {
+				_, isField := x.X.(*ssa.FieldAddr)
+				return isField
+			}
+		}
+		return false
+	}
+	for _, f := range fns {
+		for _, b := range f.Blocks {
+			for _, in := range b.Instrs {
+				var coll ssa.Value
+				var need int64 = -1
+				switch x := in.(type) {
+				case *ssa.Slice:
+					if _, isSlice := x.X.Type().Underlying().(*types.Slice); !isSlice {
+						continue
+					}
+					coll = x.X
+					for _, bd := range []ssa.Value{x.Low, x.High} {
+						if bd == nil {
+							continue
+						}
+						if k, ok := constInt(bd); ok && k > need {
+							need = k
+						}
+					}
+				case *ssa.IndexAddr:
+					if _, isSlice := x.X.Type().Underlying().(*types.Slice); !isSlice {
+						continue
+					}
+					coll = x.X
+					if k, ok := constInt(x.Index); ok {
+						need = k + 1
+					}
+				}
+				if coll == nil || need <= 0 || !fromCallOrField(coll) {
+					continue
+				}
+				n++
+				perFn[f]++
+				have := c.minLenLifted(b, coll, 0)
+				if h := exactLenFromHelper(b, coll); h > have {
+					have = h
+				}
+				if h := regexpIndexLen(b, coll); h > have {
+					have = h
+				}
+				pos := in.Pos()
+				if !pos.IsValid() {
+					pos = f.Pos()
+				}
+				c.S.Check(have >= need, rule, fmt.Sprintf("%s:constant bound #%d on a computed slice (needs len ≥ %d)", load.FuncName(f), perFn[f], need), c.pos(pos), fmt.Sprintf("len ≥ %d established before the access", have),
+					fmt.Sprintf("%s is sliced or indexed at the constant %d, but nothing establishes len ≥ %d for it (known: ≥ %d): a shorter value panics", flow.Describe(coll), need, need, have))
+			}
+		}
+	}
+	c.S.Count("constant_bounds_on_computed_slices", n)
+	return n
+}
+
+// exactLenFromHelper: coll is result 0 of a call to a repo helper that returns a nil error only where
+// len(result) == one of its parameters (readExactly(r, n)); block b lies behind the helper's error having been found
+// nil; then len(coll) equals the argument, and the lower bound the dominating conditions give for the argument (as
+// the same value, up to conversions) is a lower bound for len(coll).
+func exactLenFromHelper(b *ssa.BasicBlock, coll ssa.Value) int64 {
+	ex, ok := coll.(*ssa.Extract)
+	if !ok || ex.Index != 0 {
+		return 0
+	}
+	call, ok := ex.Tuple.(*ssa.Call)
+	if !ok {
+		return 0
+	}
+	g := call.Call.StaticCallee()
+	if g == nil || g.Blocks == nil || !load.FuncInRepo(g) {
+		return 0
+	}
+	ei := errIndex(g.Signature)
+	if ei < 0 {
+		return 0
+	}
+	pidx := -1
+	nOK := 0
+	for _, gb := range g.Blocks {
+		ret, ok := gb.Instrs[len(gb.Instrs)-1].(*ssa.Return)
+		if !ok || !isNilK(ret.Results[ei]) {
+			continue
+		}
+		nOK++
+		found := -1
+		for _, cf := range dominatingConds(gb) {
+			op, other, ok := relFact(cf, func(v ssa.Value) bool {
+				a, ok := lenArg(stripConv(v))
+				return ok && sameColl(a, ret.Results[0])
+			})
+			if !ok || op != token.EQL {
+				continue
+			}
+			if p, ok := stripConv(other).(*ssa.Parameter); ok {
+				for i, q := range g.Params {
+					if q == p {
+						found = i
+					}
+				}
+			}
+		}
+		if found < 0 || (pidx >= 0 && pidx != found) {
+			return 0
+		}
+		pidx = found
+	}
+	if nOK == 0 || pidx < 0 || pidx >= len(call.Call.Args) {
+		return 0
+	}
+	// the access lies behind err == nil
+	errNil := false
+	for _, cf := range dominatingConds(b) {
+		op, other, ok := relFact(cf, func(v ssa.Value) bool {
+			e2, ok := v.(*ssa.Extract)
+			return ok && e2.Tuple == ssa.Value(call) && e2.Index == ei
+		})
+		if ok && op == token.EQL && isNilK(other) {
+			errNil = true
+		}
+	}
+	if !errNil {
+		return 0
+	}
+	arg := stripConv(call.Call.Args[pidx])
+	var lb int64
+	for _, cf := range dominatingConds(b) {
+		op, other, ok := relFact(cf, func(v ssa.Value) bool { v = stripConv(v); return v == arg || sameLoad(v, arg) })
+		if !ok {
+			continue
+		}
+		k, isK := constInt(other)
+		if !isK {
+			continue
+		}
+		switch op {
+		case token.GEQ, token.EQL:
+			if k > lb {
+				lb = k
+			}
+		case token.GTR:
+			if k+1 > lb {
+				lb = k + 1
+			}
+		}
+	}
+	return lb
+}
+
+// regexpIndexLen: the location pair of a regexp Find*Index call is nil or has two elements; behind loc != nil it has two.
+func regexpIndexLen(b *ssa.BasicBlock, coll ssa.Value) int64 {
+	call, ok := coll.(*ssa.Call)
+	if !ok {
+		return 0
+	}
+	g := call.Call.StaticCallee()
+	if g == nil {
+		return 0
+	}
+	switch g.String() {
+	case "(*regexp.Regexp).FindIndex", "(*regexp.Regexp).FindStringIndex", "(*regexp.Regexp).FindReaderIndex":
+	default:
+		return 0
+	}
+	for _, cf := range dominatingConds(b) {
+		op, other, ok := relFact(cf, func(v ssa.Value) bool { return v == coll })
+		if ok && op == token.NEQ && isNilK(other) {
+			return 2
+		}
+	}
+	return 0
+}
+
 // divisorRule (T25): an integer division or remainder whose divisor is not a constant panics when the divisor is
 // zero. Every such operation in fns needs the divisor known non-zero: a dominating condition on that very value (or
 // on another load of the same field) that excludes zero (≠ 0, > k, ≥ k with k ≥ 1, == k with k ≠ 0), a divisor that
